@@ -337,24 +337,32 @@ def run(rep, tier):
     E = T + "Elements::"
 
     def fill(name, field):
+        """(key, value, location) of every entry the function stores into the table: read off the folded stores, so that assignments, loops over literal
+        lists and counters all give the table they produce"""
         f = F.one(E + name)
         rep.analysed(f)
+        fo_ = Fold(f).run()
         out = []
-        for st in f.body["stmts"]:
-            e = unwrap(st)
-            if e.get("k") == "opcall" and e["op"] == "=":
-                l, r = unwrap(e["args"][0]), unwrap(e["args"][1])
-                lhs_ok = l.get("k") == "opcall" and l["op"] == "[]" and unwrap(l["args"][0]).get("fname") == field
-                if not lhs_ok:
-                    raise AnalysisBroken("%s: statement not of the form %s[key] = literal: %s" % (name, field, show(e)))
-                out.append((keyval(l["args"][1]), keyval(r), f.loc(e)))
-            elif e.get("k") == "assign" and e["op"] == "=":
-                l, r = unwrap(e["lhs"]), unwrap(e["rhs"])
-                if not (l.get("k") == "opcall" and l["op"] == "[]" and unwrap(l["args"][0]).get("fname") == field):
-                    raise AnalysisBroken("%s: statement not of the form %s[key] = literal: %s" % (name, field, show(e)))
-                out.append((keyval(l["args"][1]), keyval(r), f.loc(e)))
-            else:
-                raise AnalysisBroken("%s: unrecognised statement %s" % (name, show(e)))
+        for e_ in fo_.events:
+            if e_["kind"] != "store":
+                continue
+            tn = unwrap(e_.get("target_node") or {})
+            if not (tn.get("k") == "opcall" and tn.get("op") == "[]" and unwrap(tn["args"][0]).get("fname") == field):
+                raise AnalysisBroken("%s: store to %s, which is not an entry of %s" % (name, e_["target"], field))
+            if e_["guards"] or not e_.get("idx"):
+                raise AnalysisBroken("%s: the entry %s is stored conditionally or with an unevaluated key" % (name, e_["target"]))
+            key, val = e_["idx"][0], e_["value"]
+            while str(getattr(val, "func", "")) in ("toint", "todouble") and len(val.args) == 1:
+                val = val.args[0]              # a numeric conversion of a literal is that literal
+            mk = re.match(r'^ctor\("([^"]*)"', str(key)) or re.match(r'^"([^"]*)"$', str(key))
+            k_ = mk.group(1) if mk else (int(key) if getattr(key, "is_Integer", False) else None)
+            mv = re.match(r'^ctor\("([^"]*)"', str(val)) or re.match(r'^"([^"]*)"$', str(val))
+            v_ = mv.group(1) if mv else (int(val) if getattr(val, "is_Integer", False) else float(val) if getattr(val, "is_number", False) else None)
+            if k_ is None or v_ is None:
+                raise AnalysisBroken("%s: key/value of %s do not fold to literals (%s -> %s)" % (name, e_["target"], str(key)[:40], str(val)[:40]))
+            out.append((k_, v_, f.loc(e_["node"])))
+        if not out:
+            raise AnalysisBroken("%s: no entries of %s found" % (name, field))
         return f, out
 
     def keyval(n):
